@@ -65,7 +65,9 @@ impl TokenParser {
     // The infix and postfix loops extend an expression tree without recursing (`1+1+1+...`,
     // `a.b.c...`, `x[0][0]...`), so nesting depth alone does not bound the tree's height, and
     // every later stage (validation, planning, evaluation, even Drop) walks it recursively.
-    const MAX_EXPRESSION_HEIGHT: usize = 128;
+    // Unoptimised builds use several times more stack per level than optimised ones (a chain of
+    // ~300 levels overflows a 2 MiB thread stack in a debug build, ~8000 in a release build).
+    const MAX_EXPRESSION_HEIGHT: usize = if cfg!(debug_assertions) { 128 } else { 1024 };
 
     fn new(tokens: Vec<Token>) -> Self {
         let max_parse_steps = Self::max_parse_steps_for(tokens.len());
